@@ -248,6 +248,10 @@ func zipFileFor(r *rand.Rand, p string, wild bool) ZipFileSpec {
 		f.OpenErr = true
 	}
 	// declared sizes
+	if (p == "go.mod" || p == "LICENSE") && r.Intn(3) == 0 {
+		f.Size = zMaxGoMod + int64(r.Intn(3)) - 1 // 16 MiB - 1, 16 MiB, 16 MiB + 1
+		return f
+	}
 	switch k := r.Intn(100); {
 	case k < 8: // at the go.mod / LICENSE limit
 		f.Size = zMaxGoMod + int64(r.Intn(3)) - 1
@@ -302,7 +306,7 @@ func ModuleFileList(r *rand.Rand) []ZipFileSpec {
 		case k < 30:
 			p = pick(r, "vendor/modules.txt", "vendor/a/x.go", "vendor/x.go", "a/vendor/x.go", "a/vendor/b/x.go", "pkg/vendor/vendor.go", "a/vendor/modules.txt", "vendor/vendor/x.go", "vendor/a/vendor/x.go", "xvendor/a/b.go", "a/vendor", "vendor")
 		case k < 36:
-			p = pick(r, "sub/go.mod", "sub/GO.MOD", "sub/x.go", "sub/a/y.go", "a/go.mod", "a/Go.Mod", "A/go.mod", "LICENSE", ".hg_archival.txt", "a/.hg_archival.txt", "GO.MOD", "Go.mod", "go.mod")
+			p = pick(r, "sub/go.mod", "sub/GO.MOD", "sub/x.go", "sub/a/y.go", "a/go.mod", "a/Go.Mod", "A/go.mod", "LICENSE", "LICENSE", "sub/LICENSE", ".hg_archival.txt", "a/.hg_archival.txt", "GO.MOD", "Go.mod", "go.mod")
 		default:
 			p = ZipRelPath(r, hostile)
 		}
@@ -621,21 +625,23 @@ func ZipHostileArchive(r *rand.Rand, m module.Version) []ZipArchEntry {
 			if r.Intn(4) == 0 {
 				e.Declared = uint64(r.Intn(3))
 			}
+		} else if !calm && (name == "go.mod" || name == "LICENSE") && r.Intn(3) == 0 {
+			e.Declared = uint64(zMaxGoMod) + uint64(r.Intn(3)) - 1
 		} else if !calm {
 			switch k := r.Intn(100); {
-			case k < 5:
+			case k < 9:
 				e.Declared++
-			case k < 10:
+			case k < 16:
 				if e.Declared > 0 {
 					e.Declared--
 				}
-			case k < 14:
+			case k < 19:
 				e.Declared = uint64(zMaxGoMod) + uint64(r.Intn(3)) - 1
-			case k < 17:
-				e.Declared = uint64(zMaxZip) + uint64(r.Intn(3)) - 1
-			case k < 20:
-				e.Declared = uint64(zMaxZip)/2 + uint64(r.Intn(2))
 			case k < 22:
+				e.Declared = uint64(zMaxZip) + uint64(r.Intn(3)) - 1
+			case k < 25:
+				e.Declared = uint64(zMaxZip)/2 + uint64(r.Intn(2))
+			case k < 27:
 				e.Declared = []uint64{1 << 63, 1<<63 - 1, 1<<64 - 1, 1 << 32, 1<<32 - 1}[r.Intn(5)]
 			}
 		}
